@@ -15,7 +15,8 @@ MON = [monitors.C08Monitor]
 def run_shard(args):
     if args.get("mode") == "crash":
         return run_crash(args)
-    return histrun.run_history(args, MON, common.Result(), weights=WEIGHTS, driver_kw={"pool": 6, "audit_every": 3})
+    wts = dict(WEIGHTS, **args.get("weights", {}))
+    return histrun.run_history(args, MON, common.Result(), weights=wts, driver_kw={"pool": 6, "audit_every": 3, "blank_values": False})
 
 
 def run_crash(args):
@@ -105,6 +106,12 @@ def run_crash(args):
 
 def check(tier, seed, t0):
     shards = _hist.plan(tier, seed, quick=(12, 120, 1), thorough=(16, 150, 6))
+    for i, a in enumerate(shards):
+        if i % 3 == 2:
+            # a server run with --defaults: its own calendar and address book are collections like any other, and every
+            # restart goes through the start-up code that makes them
+            a["autocreate"] = "defaults"
+            a["weights"] = {"restart": 4, "proppatch": 8, "delete_col": 1.5, "mkcol_new": 1.5}
     scs = [(b, m, op, 1) for b in ("tree", "bare") for m in ("file", "gitconfig") for op in ("create", "replace", "delete")]
     for i in range(4):
         shards.append({"mode": "crash", "seed": seed * 100 + 90 + i, "scenarios": scs[i::4]})
@@ -117,9 +124,10 @@ def check(tier, seed, t0):
               ("writes to other collections inside unchanged intervals", c.get("unchanged_interval_other_writes", 0), 200 * k),
               ("intervals with change", c.get("changed_intervals", 0), 200 * k), ("restarts", c.get("restarts", 0), 3),
               ("tag observations in crash states (before and after retry)", c.get("crash_tag_observations", 0), 400),
-              ("collection property changes", c.get("op:proppatch", 0), 40 * k), ("calendar colours set without the leading '#'", c.get("op:proppatch_colour_without_hash", 0), 1 * k)]
+              ("collection property changes", c.get("op:proppatch", 0), 40 * k), ("calendar colours set without the leading '#'", c.get("op:proppatch_colour_without_hash", 0), 1 * k),
+              ("histories of a server run with --defaults", c.get("histories_with_default_collections", 0), 3 * k), ("scripted restarts over what users did to the default collections", c.get("scripted_defaults_preludes", 0), 3 * k)]
     return common.finish(PROP, tier, seed, "exploration", merged, failures, RULE, t0, guards=guards,
                          assumptions=["collection contents are fingerprinted from GET of every listed member at quiescent points", "a delete+recreate of a collection starts a new tag history"])
 
 
-replay = _mk.make_replay(PROP, MON, WEIGHTS, {"pool": 6, "audit_every": 3})
+replay = _mk.make_replay(PROP, MON, WEIGHTS, {"pool": 6, "audit_every": 3, "blank_values": False})
